@@ -72,6 +72,9 @@ class Sandbox:
         except subprocess.TimeoutExpired:
             p.kill()
             out, err = p.communicate()
+            if timeout < 600:
+                # wall-clock time under load is no verdict: try once more with a limit that only a hang exceeds
+                return self.run(args, stdin=stdin, timeout=900, strace=strace)
             return Run(-9, out, err + b"\n[verif: timeout]", listing(self.cwd), listing(self.tmp))
         tr = ""
         if sf and os.path.exists(sf):
